@@ -314,6 +314,38 @@ class Repo(object):
                 'helpers_inlined_by_normalisation': self.normalised['inlined']}
 
 
+def expand_locals(fn_node, expr, depth=6):
+    """copy of expr in which every local that is bound exactly once in fn_node (a plain `x = e`, not a parameter, not
+    augmented, not a loop / with / except target) is replaced by e, recursively: shape rules see through explaining
+    variables"""
+    import copy as _copy
+    params = {a.arg for a in ast.walk(fn_node.args) if isinstance(a, ast.arg)} if hasattr(fn_node, 'args') else set()
+    binds = {}
+    other = set()
+    for n in walk_own(fn_node):
+        if isinstance(n, ast.Assign) and len(n.targets) == 1 and isinstance(n.targets[0], ast.Name):
+            binds.setdefault(n.targets[0].id, []).append(n.value)
+        elif isinstance(n, ast.Name) and isinstance(n.ctx, (ast.Store, ast.Del)):
+            other.add(n.id)
+        elif isinstance(n, ast.ExceptHandler) and n.name:
+            other.add(n.name)
+    # names stored by plain assignments were also seen as Store above: count stores
+    stores = {}
+    for n in walk_own(fn_node):
+        if isinstance(n, ast.Name) and isinstance(n.ctx, (ast.Store, ast.Del)):
+            stores[n.id] = stores.get(n.id, 0) + 1
+    single = {k: v[0] for k, v in binds.items() if len(v) == 1 and stores.get(k, 0) == 1 and k not in params}
+
+    def go(e, d, seen):
+        class R(ast.NodeTransformer):
+            def visit_Name(self_, n):
+                if isinstance(n.ctx, ast.Load) and n.id in single and n.id not in seen and d > 0:
+                    return go(_copy.deepcopy(single[n.id]), d - 1, seen | {n.id})
+                return n
+        return R().visit(e)
+    return go(_copy.deepcopy(expr), depth, frozenset())
+
+
 def norm(node):
     """Normalised text of a node: unparse, collapsed whitespace; used for keys of findings (never line numbers)."""
     try:
